@@ -260,12 +260,18 @@ Qed.
 (* ================================================================ E. mds_generated on arbitrary u64 words *)
 Definition word_ok (w : Z) : Prop := 0 <= w < 2 ^ 64.
 
+Lemma t5_land_mask32 a : Z.land a 4294967295 = a mod 4294967296.
+Proof. change 4294967295 with (Z.ones 32). rewrite Z.land_ones by lia. reflexivity. Qed.
+Lemma t5_land_mask32' a : Z.land 4294967295 a = a mod 4294967296.
+Proof. rewrite Z.land_comm. apply t5_land_mask32. Qed.
+
 Lemma split_word w : word_ok w ->
   0 <= mds_split_lo w < 2 ^ 32 /\ 0 <= mds_split_hi w < 2 ^ 32 /\
   w = mds_split_lo w + 2 ^ 32 * mds_split_hi w /\ mds_split_hi_ok w = true /\ mds_split_lo_ok w = true.
 Proof.
   unfold word_ok, mds_split_lo, mds_split_hi, mds_split_hi_ok, mds_split_lo_ok. intros Hw.
-  change 4294967295 with (Z.ones 32). rewrite Z.land_ones by lia. word_unfold. lia.
+  (* the low half may be written `b & 0xffffffff` (either operand order) or `(b as u32) as u64`; the high half `b >> 32` *)
+  rewrite ?t5_land_mask32, ?t5_land_mask32'. word_unfold. lia.
 Qed.
 
 Lemma dot_split r st : Forall word_ok st ->
